@@ -1,7 +1,7 @@
 (* C13 - a response matches only the one outstanding request with its sequence number. *)
 From Coq Require Import ZArith List Bool.
 Import ListNotations.
-Require Import AV.Generated.SmppConsts AV.Generated.Handled AV.Model.Base AV.Model.Seq AV.Proofs.SeqProofs.
+Require Import AV.Generated.SmppConsts AV.Generated.Handled AV.Model.Base AV.Model.Seq AV.Model.Resume AV.Proofs.SeqProofs AV.Proofs.ResumeProofs.
 Open Scope Z_scope.
 
 (* (a) every number handed out lies in the generator's range, whatever state it was started in *)
@@ -34,6 +34,16 @@ Proof. exact fresh_sequence_number. Qed.
    particular not at the end of a connect cycle - so the history of C13_fresh_number runs across reconnects *)
 Theorem C13_generators_only_advanced : generator_foreign_uses = 0 /\ 2 <= generator_advance_sites.
 Proof. split; [reflexivity|discriminate]. Qed.
+
+(* a restart of the application on a persisted correlator (new ESME, default generator; Model/Resume.v, whose rule the translator reads
+   off ESME.__init__ and SimpleCorrelator.last_sequence_num): the generator continues after the highest number the correlator still
+   knows, so - until it reaches its maximum, 2^31 - 1 by default - no number it hands out is one of the stored ones *)
+Theorem C13_resumed_numbers_are_fresh :
+  forall mn mx stored n,
+  (forall s, In s stored -> 0 < s) -> stored <> [] ->
+  zmax0 stored + Z.of_nat n <= mx ->
+  forall x, In x (take_numbers n (resume (seq_init mn mx) stored)) -> ~ In x stored.
+Proof. exact resumed_numbers_are_fresh. Qed.
 
 (* (b) for every history, no request is ever attributed twice *)
 Theorem C13_at_most_once :
